@@ -203,3 +203,40 @@ func c19seed(c *Ctx) {
 	}
 	c.R.Check(okSeed, rule, pkg+".src#initial-seed", "the shared generator is seeded from the nanosecond clock at process start", "-", "", nil, 1)
 }
+
+// c19setExpire (C19.R10, round 8): "the lease lasts the configured seconds plus 500 ms" — configured last. SetExpire
+// stores its argument into the field AcquireCtx computes the lease from, on every path: a guard that skips some values
+// (0 is a legal setting: a 500 ms lease) leaves the previous lease in force for the next Acquire.
+func c19setExpire(c *Ctx) {
+	rule := "C19.R10"
+	pkg := "core/stores/redis"
+	f := c.fn(rule, pkg, "(*RedisLock).SetExpire")
+	if f == nil {
+		return
+	}
+	ps := c.paths(rule, f, px.Config{})
+	argP := f.Params[1]
+	c.forall(rule, pkg+".(*RedisLock).SetExpire", "every path stores the argument (converted, not otherwise transformed) into the lease field", f, ps, func(p *px.Path) (bool, string) {
+		if p.Exit != px.ExitReturn {
+			return true, ""
+		}
+		stored := false
+		for i := range p.Events {
+			e := &p.Events[i]
+			switch {
+			case e.Kind == px.EvStore && px.FieldAddrIs(e.Addr, "seconds", nil):
+				if dependsOn(p, e.Val, p.ParamSym(argP)) {
+					stored = true
+				}
+			case e.Kind == px.EvCall && e.Call != nil && strings.HasPrefix(shortName(e.Call), "sync/atomic.Store") && len(e.Call.Args) == 2 && px.FieldAddrIs(e.Call.Args[0], "seconds", nil):
+				if dependsOn(p, e.Call.Args[1], p.ParamSym(argP)) {
+					stored = true
+				}
+			}
+		}
+		if !stored {
+			return false, "a path returns without storing the argument: the previous lease stays in force"
+		}
+		return true, ""
+	})
+}
